@@ -236,8 +236,8 @@ def _run_history(hist, rec):
                 cond = R.Builder(spec).build(('>', ('var', 'x1'), ('num', 2.25)))
                 db.remove(cond)
                 rows = [r for r in rows if not r['x1'] > 2.25]
-                created_after_remove = False
-            elif b is None or not created_after_remove:
+                created_after_remove = False       # (kept for the record: the model object now predates the removal)
+            elif b is None:
                 rec.count('history_steps_not_applicable')
                 return
             elif op == 'refused':
